@@ -49,6 +49,19 @@ fn host_style(n: &Name) -> bool {
     })
 }
 
+/// an item shaped like a record: a (compressible) owner name followed by `pad` opaque octets
+struct NamePad {
+    name: Name,
+    pad: usize,
+}
+
+impl BinEncodable for NamePad {
+    fn emit(&self, encoder: &mut BinEncoder<'_>) -> Result<(), hickory_proto::ProtoError> {
+        self.name.emit(encoder)?;
+        encoder.emit_slice(&vec![0xEEu8; self.pad])
+    }
+}
+
 pub fn exec(line: &str, rec: &mut Recorder) {
     let t: Vec<&str> = line.split_whitespace().collect();
     let r = catch(|| exec_inner(&t));
@@ -251,6 +264,79 @@ fn exec_inner(t: &[&str]) -> Out {
             nontrivial = !pres.is_empty();
             "~".to_string()
         }
+        ["emitlim", limit, sections] => {
+            // size-limited compressed encoding (impl-only oracle): sections separated by '/', items
+            // `name:pad` separated by ','; every section is written with one `emit_iter` call under
+            // the limit (an item that does not fit is rolled back and ends its section, as in
+            // emit_message_parts), later sections go on; every item that was written must decode
+            // back to its own name, also when a later item reuses the name of a dropped one.
+            let limit: usize = limit.parse().ok()?;
+            let secs: Vec<Vec<NamePad>> = sections
+                .split('/')
+                .map(|sec| {
+                    if sec == "-" {
+                        return Some(vec![]);
+                    }
+                    sec.split(',')
+                        .map(|it| {
+                            let (n, p) = it.rsplit_once('=')?;
+                            Some(NamePad { name: parse_name(n)?, pad: p.parse().ok()? })
+                        })
+                        .collect::<Option<Vec<_>>>()
+                })
+                .collect::<Option<_>>()?;
+            let mut buf = Vec::new();
+            let mut written: Vec<&NamePad> = vec![];
+            let mut dropped = 0usize;
+            {
+                let mut enc = BinEncoder::new(&mut buf);
+                enc.set_max_size(limit.min(u16::MAX as usize) as u16);
+                for sec in &secs {
+                    match enc.emit_iter(sec.iter()) {
+                        Ok(k) => written.extend(sec.iter().take(k)),
+                        Err(e) => match e {
+                            hickory_proto::ProtoError::NotAllRecordsWritten { count, .. } => {
+                                written.extend(sec.iter().take(count));
+                                dropped += 1;
+                            }
+                            other => fails.push(format!("size-limited emit failed with {other}")),
+                        },
+                    }
+                    if enc.len() > limit {
+                        fails.push(format!("encoder holds {} octets under the limit {limit}", enc.len()));
+                    }
+                }
+            }
+            let d0 = BinDecoder::new(&buf);
+            let mut off = 0usize;
+            for it in &written {
+                let mut d = d0.clone(off as u16);
+                match Name::read(&mut d) {
+                    Ok(back) => {
+                        let mut want = it.name.clone();
+                        want.set_fqdn(true);
+                        if !back.eq_case(&want) {
+                            fails.push(format!(
+                                "size-limited wire round trip changed {} into {} (offset {off})",
+                                name_tok(&want),
+                                name_tok(&back)
+                            ));
+                            break;
+                        }
+                        off = d.index() + it.pad;
+                    }
+                    Err(e) => {
+                        fails.push(format!("name at {off} does not decode after a size-limited emit: {e}"));
+                        break;
+                    }
+                }
+            }
+            if fails.is_empty() && off != buf.len() {
+                fails.push(format!("size-limited emit left {} octets, the written items account for {off}", buf.len()));
+            }
+            nontrivial = dropped > 0 && !written.is_empty();
+            "~".to_string()
+        }
         ["read", buf, pos] => {
             let buf = unhex(buf)?;
             let pos: usize = pos.parse().ok()?;
@@ -393,6 +479,33 @@ fn gen_host_name(r: &mut Rng) -> Name {
     n
 }
 
+/// a host-style name near the 255-octet wire limit with many literal dots (each written `\.` in
+/// presentation format), so that the TEXT is longer than 255 characters although the name is legal
+fn gen_host_name_long(r: &mut Rng) -> Name {
+    let mut n = Name::root();
+    let want = r.range(180, 255) as usize; // wire length aimed at
+    let mut wire = 1usize;
+    let dots = r.range(1, 3); // 1 in `dots` octets is a dot (1 = every non-first octet)
+    while wire + 2 <= want {
+        let max = (want - wire - 1).min(63);
+        let len = if r.chance(2, 3) { max } else { r.range(1, max as u64) as usize };
+        let l: Vec<u8> = (0..len)
+            .map(|i| {
+                if i > 0 && r.below(dots) == 0 { b'.' } else { *r.pick(b"abcXYZ019_") }
+            })
+            .collect();
+        match n.clone().append_label(&l[..]) {
+            Ok(m) => n = m,
+            Err(_) => break,
+        }
+        wire += 1 + len;
+    }
+    if r.chance(1, 3) {
+        n.set_fqdn(false);
+    }
+    n
+}
+
 /// a name related to `a`: case change, fqdn flip, label boundary shift, prefix/suffix edits
 fn relative_of(r: &mut Rng, a: &Name) -> Name {
     let mut labels: Vec<Vec<u8>> = a.iter().map(|l| l.to_vec()).collect();
@@ -502,6 +615,61 @@ fn limit_case(r: &mut Rng) -> String {
             format!("from_labels {}", labels_tok(&ls))
         }
     }
+}
+
+/// sections of name:pad items under a limit that cuts inside one of them; later items reuse the
+/// names (and suffixes) of earlier ones, in particular of the item that was dropped
+fn limit_sections(r: &mut Rng) -> String {
+    let base = gen_name(r, true);
+    let mut pool: Vec<Name> = vec![];
+    for _ in 0..r.range(2, 5) {
+        let mut n = relative_of(r, &base);
+        n.set_fqdn(true);
+        if n.iter().count() == 0 {
+            n = Name::from_labels(vec![&b"x"[..], &b"example"[..]]).unwrap();
+        }
+        pool.push(n);
+    }
+    let nsec = r.range(2, 4) as usize;
+    let mut secs: Vec<Vec<(Name, usize)>> = vec![];
+    let mut total = 0usize;
+    let mut ends = vec![];
+    for _ in 0..nsec {
+        let mut sec = vec![];
+        for _ in 0..r.below(4) {
+            let n = r.pick(&pool).clone();
+            let pad = match r.below(5) {
+                0 => 0,
+                1 => r.range(200, 700) as usize,
+                _ => r.range(1, 20) as usize,
+            };
+            total += wire_len(&n) + pad;
+            ends.push(total);
+            sec.push((n, pad));
+        }
+        secs.push(sec);
+    }
+    // the limit: usually inside an item (uncompressed position as an estimate), sometimes generous
+    let limit = match r.below(6) {
+        0 => total + 10,
+        1 => r.below(total as u64 + 2) as usize,
+        _ if !ends.is_empty() => {
+            let e = *r.pick(&ends);
+            e.saturating_sub(r.below(40) as usize)
+        }
+        _ => 12,
+    };
+    let txt: Vec<String> = secs
+        .iter()
+        .map(|s| {
+            if s.is_empty() {
+                "-".to_string()
+            } else {
+                s.iter().map(|(n, p)| format!("{}={p}", name_tok(n))).collect::<Vec<_>>().join(",")
+            }
+        })
+        .collect();
+    format!("emitlim {limit} {}", txt.join("/"))
 }
 
 fn gen_wire(r: &mut Rng) -> (Vec<u8>, usize) {
@@ -666,7 +834,9 @@ pub fn run(o: &Opts, rec: &mut Recorder) {
             },
             19 => format!("emit {}", name_tok(&a)),
             20 | 21 => {
-                if r.chance(1, 3) {
+                if r.chance(1, 4) {
+                    limit_sections(&mut r)
+                } else if r.chance(1, 3) {
                     // compressed emit at an offset after related names (implementation-only oracle)
                     let k = r.range(1, 4);
                     let mut pres = vec![];
@@ -680,13 +850,22 @@ pub fn run(o: &Opts, rec: &mut Recorder) {
                 }
             }
             22 => {
-                let hn = if r.chance(2, 3) { gen_host_name(&mut r) } else { a.clone() };
+                let hn = match r.below(6) {
+                    0 | 1 | 2 => gen_host_name(&mut r),
+                    3 => gen_host_name_long(&mut r),
+                    _ => a.clone(),
+                };
                 format!("to_ascii {}", name_tok(&hn))
             }
             _ => {
                 // text: formatted names, mutated
-                let hn = if r.chance(1, 2) { gen_host_name(&mut r) } else { a.clone() };
+                let hn = match r.below(6) {
+                    0 | 1 => gen_host_name(&mut r),
+                    2 => gen_host_name_long(&mut r),
+                    _ => a.clone(),
+                };
                 let mut s = hn.to_ascii().into_bytes();
+                rec.stat(if s.len() > 255 { "from_ascii.text_len > 255" } else if s.len() > 200 { "from_ascii.text_len 201..255" } else { "from_ascii.text_len <= 200" });
                 if r.chance(1, 2) && !s.is_empty() {
                     let i = r.below(s.len() as u64) as usize;
                     match r.below(4) {
